@@ -114,6 +114,14 @@ def structures(rng):
              dims=[dict(fam="weibull", slicer=P(int(rng.integers(60, 140)), 40)), dict(nrm, cond=0)], fitdesc=None),
         dict(name="weibull|normal points tied", units=["0.1", None],
              dims=[dict(fam="weibull", slicer=P(int(rng.integers(60, 140)), 40)), dict(nrm, cond=0)], fitdesc=None),
+        # one weight per observation ("@array": a function of the row's own values, see concrete_fitdesc):
+        # the weights of a conditional variable have to be split with the intervals (D33)
+        dict(name="weibull|expweibull(wlsq array weights) width0.5", units=["0.1", None],
+             dims=[dict(fam="weibull", slicer=W("0.5", 30)), dict(ew2, cond=0)],
+             fitdesc=[None, {"method": "wlsq", "weights": "@array"}]),
+        dict(name="expweibull(wlsq array weights)|expweibull(wlsq array weights) number9", units=["0.1", None],
+             dims=[dict(fam="expweibull", kw={"f_delta": 2}, slicer=Nn(9, 25)), dict(ew2, cond=0)],
+             fitdesc=[{"method": "wlsq", "weights": "@array"}, {"method": "wlsq", "weights": "@array"}]),
         dict(name="weibull|weibull|lognormal chain 3D", units=["0.5", "0.25", None],
              dims=[dict(fam="weibull", slicer=W("1", 25)), dict(wb2, cond=0, slicer=W("0.5", 25)), dict(ln, cond=1)],
              fitdesc=[None, {"method": "mle", "weights": None}, None]),
@@ -215,11 +223,30 @@ class Recorder:
         self.IS.slice_, self.DI.fit, self.DF.fit = self.o_slice, self.o_fit, self.o_dfit
 
 
+def row_weights(data, i):
+    """weights of dimension i, one per row, a function of the row's own values only (so that permuting the
+    rows permutes the weights with them); not monotone in the fitted variable"""
+    other = data[:, (i + 1) % data.shape[1]]
+    return 0.25 + data[:, i] ** 2 * (1.0 + 0.5 * np.sin(3.0 * other))
+
+
+def concrete_fitdesc(fitdesc, data):
+    """replaces the "@array" marker of a fit description by the array of per-row weights for this data matrix"""
+    if fitdesc is None:
+        return None
+    out = []
+    for i, fd in enumerate(fitdesc):
+        if fd is not None and isinstance(fd.get("weights"), str) and fd["weights"] == "@array":
+            fd = dict(fd, weights=row_weights(np.asarray(data, dtype=float), i))
+        out.append(copy.deepcopy(fd))
+    return out
+
+
 def fit_observed(vc, st, data, fitdesc):
     model = build_model(vc, st)
     with Recorder(vc) as rec, warnings.catch_warnings():
         warnings.simplefilter("ignore")
-        model.fit(data, copy.deepcopy(fitdesc))
+        model.fit(data, concrete_fitdesc(fitdesc, data))
     return model, rec
 
 
@@ -254,10 +281,10 @@ def dim_records(vc, case, rid0):
         m3 = build_model(vc, st)
         with warnings.catch_warnings():
             warnings.simplefilter("ignore")
-            m3.fit(other, copy.deepcopy(fitdesc))
+            m3.fit(other, concrete_fitdesc(fitdesc, other))
         with Recorder(vc) as r3, warnings.catch_warnings():
             warnings.simplefilter("ignore")
-            m3.fit(data, copy.deepcopy(fitdesc))
+            m3.fit(data, concrete_fitdesc(fitdesc, data))
     except RuntimeError as e:
         if "Failed to fit dependence function" in str(e):
             # documented outcome of a non-converging dependence fit: nothing to judge
@@ -332,9 +359,13 @@ def dim_records(vc, case, rid0):
         sa = []
         for t in range(len(di)):
             d0 = copy.deepcopy(cd1.distribution)
+            wt = weights
+            if isinstance(weights, str) and weights == "@array":
+                # exactly the weights of the observations of this interval
+                wt = row_weights(np.asarray(data, dtype=float), i)[np.asarray(masks[t], bool)]
             with warnings.catch_warnings():
                 warnings.simplefilter("ignore")
-                d0.fit(np.asarray(di[t]), method, weights)
+                d0.fit(np.asarray(di[t]), method, wt)
             sa.append(bool(d0.parameters == cd1.parameters_per_interval[t]))
         rec["standalone"] = sa
         ncalls[i] = len(masks)
@@ -376,7 +407,7 @@ def dim_records(vc, case, rid0):
             fdl.append(dict(method="none", weights="none"))
         else:
             w = fd.get("weights")
-            fdl.append(dict(method=fd["method"], weights="none" if w is None else w))
+            fdl.append(dict(method=fd["method"], weights="none" if w is None else ("array" if w == "@array" else w)))
     recs.append(dict(id=rid, kind="model", exc="", fitdesc=fdl, ncalls=ncalls, calls=r1.fitcalls))
     return recs, len(recs)
 
